@@ -65,6 +65,12 @@ Theorem C04_chunk_alloc_independent :
 Proof. exact @chunk_alloc_independent. Qed.
 Print Assumptions C04_chunk_alloc_independent.
 
+Theorem C04_decode_len :
+  forall (f : list Base.byte) (d : HeaderSpec.decoded),
+         HeaderSpec.decode f = Some d -> HeaderSpec.dc_len d = Header.hdr_len (HeaderSpec.dc_hdr d).
+Proof. exact @decode_len. Qed.
+Print Assumptions C04_decode_len.
+
 Theorem C04_flat_accepts_valid :
   forall (mm : Z) (f : list Base.byte) (d : HeaderSpec.decoded),
          HeaderSpec.decode f = Some d ->
